@@ -150,4 +150,22 @@ CHECKS["C10"] = {
           "before every operation, one small input per scenario) runs on every check and is the replay harness; it is labelled bounded.",
   "technique": "contract-based deductive verification: AST-generated typestate VCs over a ghost file system with per-operation fault "
                "injection, callee effect contracts, discharged by z3; native fault-injection replay as labelled bounded stand-in"}
+CHECKS["C16"] = {
+  "text": "Proof over the .pyx source (C declarations deleted mechanically, pyvc/cy2py.py) that downsample_rand and downsample_grid return "
+          "a mask of the input's length that selects exactly the returned values (dsa == a[mask], in order), only eligible events "
+          "(finite ones with remove_invalid), `samples` of them when that many eligible events exist and all eligible ones otherwise "
+          "(add / remove / pad branches of the grid method), each random draw starting from the fixed generator state; norm() maps "
+          "finite non-constant data into [0,1]; populate_grid marks exactly the first event of each occupied cell without leaving the "
+          "grid (loop invariant); RTDCBase.get_downsampled_scatter translates the selection into a dataset mask inside the filter "
+          "that selects exactly the returned events, for every request size incl. larger than the data. Filter.update's event limit "
+          "is decided under C03 with the downsample_rand contract proved here.",
+  "note": "Assumed: N-WHERE/N-MASK rank-select model; counting axioms N-COUNT-COMPL/-FLIP/-MASKSET (audited exhaustively on numpy up to "
+          "length 7 on every run); N-CHOICE, A-RNG (a draw is a function of generator state and arguments, so 'same input, same "
+          "selection' follows from the proved obligation that every draw is preceded by set_state(seed 47)); N-CAST-UINT; real "
+          "arithmetic for norm(). The running code is the compiled extension built from the .pyx: a differential run of the cy2py text "
+          "under CPython against the extension module is part of the bounded layer. Two known findings in the extension module (no "
+          "Cython here to rebuild it): D3 (samples > N without remove_invalid raises) and D25 (constant coordinate raises IndexError). "
+          "The @Cache decorator on downsample_grid is C17's subject.",
+  "technique": "contract-based deductive verification: AST-generated VCs (cy2py text of the .pyx) with loop invariants, ghost assertions and "
+               "callee contracts over an axiomatised numpy model, discharged by z3"}
 NOT_APPLICABLE = {}
